@@ -100,16 +100,50 @@ Proof.
   induction 1 as [|b bl Hb _ IH]; cbn [concat length]; [lia|]. rewrite app_length, IH, Hb. lia.
 Qed.
 
+(* ---------- the premises on the primitives, bundled ------------------------------------------------------------ *)
+Record prims_ok (P : prims) : Prop := mkPrimsOk {
+  ok_bs : 1 <= p_bs P <= 256;
+  ok_enc_len : forall k b, length b = p_bs P -> length (p_enc P k b) = p_bs P;
+  ok_enc_bytes : forall k b, length b = p_bs P -> bytes_ok b -> bytes_ok (p_enc P k b);
+  ok_dec_enc : forall k b, length b = p_bs P -> bytes_ok b -> p_dec P k (p_enc P k b) = b;
+  ok_mac_len : forall k m, length (p_mac P k m) = p_macSize P;
+  ok_mac_bytes : forall k m, bytes_ok (p_mac P k m);
+  ok_open_seal : forall k n ad p, p_open P k n ad (p_seal P k n ad p) = Some p;
+  ok_seal_len : forall k n ad p, length (p_seal P k n ad p) = length p + p_overhead P }.
+
+Lemma xor_bytes_ok a b : bytes_ok a -> bytes_ok b -> bytes_ok (xor_bytes a b).
+Proof.
+  unfold bytes_ok. revert b; induction a as [|x a IH]; intros [|y b] Ha Hb; cbn [xor_bytes]; try constructor.
+  - inversion Ha; inversion Hb; subst. apply lxor_byte_lt; assumption.
+  - inversion Ha; inversion Hb; subst. apply IH; assumption.
+Qed.
+
+Lemma bytes_ok_concat_inv (l : list (list N)) : bytes_ok (concat l) -> Forall bytes_ok l.
+Proof.
+  induction l as [|x l IH]; intros H; [constructor|]. cbn [concat] in H. unfold bytes_ok in H.
+  apply Forall_app in H. destruct H as [H1 H2]. constructor; [exact H1|apply IH; exact H2].
+Qed.
+
 Section Roundtrip.
   Variable P : prims.
   Let bs := p_bs P.
-  Hypothesis Hbs : 1 <= p_bs P <= 256.
-  Hypothesis Henc_len : forall k b, length b = p_bs P -> length (p_enc P k b) = p_bs P.
-  Hypothesis Hdec_enc : forall k b, length b = p_bs P -> p_dec P k (p_enc P k b) = b.
-  Hypothesis Hmac_len : forall k m, length (p_mac P k m) = p_macSize P.
-  Hypothesis Hmac_ok : forall k m, bytes_ok (p_mac P k m).
-  Hypothesis Hopen_seal : forall k n ad p, p_open P k n ad (p_seal P k n ad p) = Some p.
-  Hypothesis Hseal_len : forall k n ad p, length (p_seal P k n ad p) = length p + p_overhead P.
+  Hypothesis Hok : prims_ok P.
+  Let Hbs : 1 <= p_bs P <= 256.
+  Proof. apply Hok. Qed.
+  Let Henc_len : forall k b, length b = p_bs P -> length (p_enc P k b) = p_bs P.
+  Proof. apply Hok. Qed.
+  Let Henc_ok : forall k b, length b = p_bs P -> bytes_ok b -> bytes_ok (p_enc P k b).
+  Proof. apply Hok. Qed.
+  Let Hdec_enc : forall k b, length b = p_bs P -> bytes_ok b -> p_dec P k (p_enc P k b) = b.
+  Proof. apply Hok. Qed.
+  Let Hmac_len : forall k m, length (p_mac P k m) = p_macSize P.
+  Proof. apply Hok. Qed.
+  Let Hmac_ok : forall k m, bytes_ok (p_mac P k m).
+  Proof. apply Hok. Qed.
+  Let Hopen_seal : forall k n ad p, p_open P k n ad (p_seal P k n ad p) = Some p.
+  Proof. apply Hok. Qed.
+  Let Hseal_len : forall k n ad p, length (p_seal P k n ad p) = length p + p_overhead P.
+  Proof. apply Hok. Qed.
 
   (* ---------- CBC over a list of blocks ------------------------------------------------------------------- *)
   Fixpoint enc_blocks (key iv : list N) (bl : list (list N)) : list (list N) :=
@@ -144,15 +178,16 @@ Section Roundtrip.
     rewrite IH. rewrite last_cons_default. reflexivity.
   Qed.
 
-  Lemma dec_enc_blocks key bl : forall iv, length iv = bs ->
-    Forall (fun b => length b = bs) bl -> dec_blocks key iv (enc_blocks key iv bl) = bl.
+  Lemma dec_enc_blocks key bl : forall iv, length iv = bs -> bytes_ok iv ->
+    Forall (fun b => length b = bs) bl -> Forall bytes_ok bl -> dec_blocks key iv (enc_blocks key iv bl) = bl.
   Proof.
-    induction bl as [|b t IH]; intros iv Hiv F; cbn [enc_blocks dec_blocks]; [reflexivity|].
-    inversion F as [|? ? Hb Ft]; subst.
+    induction bl as [|b t IH]; intros iv Hiv Hivb F Fb; cbn [enc_blocks dec_blocks]; [reflexivity|].
+    inversion F as [|? ? Hb Ft]; subst. inversion Fb as [|? ? Hbb Fbt]; subst.
     assert (Hx : length (xor_bytes b iv) = bs) by (rewrite xor_bytes_length; lia).
-    rewrite Hdec_enc by exact Hx.
+    assert (Hxb : bytes_ok (xor_bytes b iv)) by (apply xor_bytes_ok; assumption).
+    rewrite Hdec_enc by assumption.
     rewrite xor_bytes_involutive by lia.
-    rewrite IH; [reflexivity| |exact Ft]. apply Henc_len. exact Hx.
+    rewrite IH; [reflexivity| | |exact Ft|exact Fbt]; [apply Henc_len; exact Hx|apply Henc_ok; assumption].
   Qed.
 
   Lemma cbc_enc_go_step fuel key iv src : src <> [] ->
@@ -243,7 +278,7 @@ Section Roundtrip.
     bytes_ok body -> (N.of_nat (length body) < 2 ^ 30)%N ->
     extractPadding (cbc_padded body) = (cbc_padlen body, 255%N).
   Proof.
-    intros Hok Hlen. pose proof (cbc_padlen_range body) as Hk. set (k := cbc_padlen body) in *.
+    intros Hbok Hlen. pose proof (cbc_padlen_range body) as Hk. set (k := cbc_padlen body) in *.
     assert (Hv : (N.of_nat (k - 1) mod 256 = N.of_nat (k - 1))%N) by (apply N.mod_small; unfold bs in Hk; lia).
     assert (Hp : cbc_padded body = body ++ repeat (N.of_nat (k - 1)) k).
     { unfold cbc_padded. fold k. rewrite Hv. reflexivity. }
@@ -255,7 +290,7 @@ Section Roundtrip.
       apply nth_repeat_lt'. exact Hj. }
     pose proof (extractPadding_spec_lemma (cbc_padded body)) as S.
     assert (Hokp : bytes_ok (cbc_padded body)).
-    { rewrite Hp. apply bytes_ok_app; [exact Hok|]. apply bytes_ok_repeat. unfold bs in Hk. lia. }
+    { rewrite Hp. apply bytes_ok_app; [exact Hbok|]. apply bytes_ok_repeat. unfold bs in Hk. lia. }
     specialize (S Hokp ltac:(rewrite Hlenp; unfold bs in Hk; change (2 ^ 31)%N with 2147483648%N;
                              change (2 ^ 30)%N with 1073741824%N in Hlen; lia)).
     destruct (cbc_padded body) as [|x0 r0] eqn:E; [cbn in Hlenp; lia|]. rewrite <- E in *.
@@ -349,7 +384,7 @@ Section Roundtrip.
   Lemma decrypt_cbc_record hc key ivR mk s h3 eiv frag bl n :
     hc_cipher hc = CipherCBC key ivR -> hc_mac hc = Some mk -> hc_seq hc = be64 s -> (s < 2 ^ 64 - 1)%N ->
     hc_version hc = VersionGMSSL ->
-    length h3 = 3 -> length eiv = bs -> bytes_ok frag ->
+    length h3 = 3 -> length eiv = bs -> bytes_ok eiv -> bytes_ok frag ->
     (N.of_nat (length frag) + N.of_nat (p_macSize P) < 2 ^ 30)%N ->
     let hdr := h3 ++ len_bytes (length frag) in
     cbc_padded (cbc_body mk s hdr frag) = concat bl -> Forall (fun b => length b = bs) bl ->
@@ -357,7 +392,7 @@ Section Roundtrip.
       Ok (mkHC (hc_err hc) (hc_version hc) (CipherCBC key (last (enc_blocks key eiv bl) eiv)) (Some mk)
                (be64 (s + 1)), Some frag).
   Proof.
-    intros Hc Hm Hs Hlt Hv Hh3 He Hokf Hsz hdr Hpadded F.
+    intros Hc Hm Hs Hlt Hv Hh3 He Heb Hokf Hsz hdr Hpadded F.
     assert (Hh : length hdr = 5) by (unfold hdr; rewrite app_length, len_bytes_length; lia).
     set (body := cbc_body mk s hdr frag) in *.
     pose proof (cbc_padlen_range body) as Hk.
@@ -391,9 +426,13 @@ Section Roundtrip.
     rewrite (firstn_app_exact eiv) by (symmetry; exact He).
     rewrite (skipn_app_exact eiv) by (symmetry; exact He).
     rewrite cbc_decrypt_blocks_ok by exact Fc. cbn [obind].
+    assert (Hbodyok : bytes_ok body) by (unfold body, cbc_body; apply bytes_ok_app; [exact Hokf|apply Hmac_ok]).
+    assert (Hblok : Forall bytes_ok bl).
+    { apply bytes_ok_concat_inv. rewrite <- Hpadded. unfold cbc_padded. apply bytes_ok_app; [exact Hbodyok|].
+      apply bytes_ok_repeat. apply N.mod_lt. discriminate. }
     rewrite dec_enc_blocks by assumption. rewrite <- Hpadded.
     rewrite extractPadding_padded.
-    2:{ unfold body, cbc_body. apply bytes_ok_app; [exact Hokf|apply Hmac_ok]. }
+    2:{ exact Hbodyok. }
     2:{ rewrite Hbody. lia. }
     cbn [obind].
     assert (Hms : length (cbc_padded body) <? p_macSize P = false) by (apply Nat.ltb_ge; lia).
@@ -515,7 +554,7 @@ Section Roundtrip.
 
   Lemma decrypt_encrypt_record_lemma w r s h3 eiv frag :
     same_keys w r -> hc_seq w = be64 s -> (s < 2 ^ 64 - 1)%N -> hc_version r = VersionGMSSL ->
-    length h3 = 3 -> length eiv = explicit_len (hc_cipher w) -> bytes_ok frag ->
+    length h3 = 3 -> length eiv = explicit_len (hc_cipher w) -> bytes_ok eiv -> bytes_ok frag ->
     (N.of_nat (length frag) + N.of_nat (p_macSize P) < 2 ^ 30)%N ->
     exists w' rec_ r',
       encrypt P w (h3 ++ len_bytes (length frag) ++ eiv ++ frag) (length eiv) = Ok (w', rec_) /\
@@ -525,7 +564,7 @@ Section Roundtrip.
       exists body, rec_ = h3 ++ len_bytes (length body) ++ body /\
                    length body <= length eiv + length frag + p_macSize P + p_bs P + p_overhead P.
   Proof.
-    intros [Hmac [Hseq Hk]] Hs Hlt Hv Hh3 He Hok Hsz.
+    intros [Hmac [Hseq Hk]] Hs Hlt Hv Hh3 He Hebytes Hokf Hsz.
     assert (Hput : forall L N, put_len (h3 ++ len_bytes L) N = h3 ++ len_bytes N).
     { intros L N. unfold put_len. rewrite firstn_app_exact by (symmetry; exact Hh3). reflexivity. }
     destruct (hc_cipher w) as [|k f|k iv] eqn:Ew; destruct (hc_cipher r) as [|k' f'|k' iv'] eqn:Er; try contradiction.
@@ -546,7 +585,7 @@ Section Roundtrip.
       destruct (encrypt_cbc_shape w k iv mk s (h3 ++ len_bytes (length frag)) eiv frag Ew Em Hs Hlt
                   ltac:(rewrite app_length, len_bytes_length; lia) He) as [bl [iv3 [Hp [F Henc]]]].
       pose proof (decrypt_cbc_record r k iv' mk s h3 eiv frag bl (bs + length (cbc_padded (cbc_body mk s (h3 ++ len_bytes (length frag)) frag)))
-                    Er ltac:(congruence) ltac:(congruence) Hlt Hv Hh3 He Hok Hsz Hp F) as Hdec.
+                    Er ltac:(congruence) ltac:(congruence) Hlt Hv Hh3 He Hebytes Hokf Hsz Hp F) as Hdec.
       eexists _, _, _. split; [exact Henc|]. split; [exact Hdec|].
       cbn [hc_seq hc_version hc_err hc_cipher hc_mac]. repeat split; auto; try discriminate.
       exists (eiv ++ concat (enc_blocks k eiv bl)).
@@ -561,26 +600,14 @@ Section Roundtrip.
   Qed.
 End Roundtrip.
 
-(* ---------- the premises on the primitives, bundled ------------------------------------------------------------ *)
-Record prims_ok (P : prims) : Prop := mkPrimsOk {
-  ok_bs : 1 <= p_bs P <= 256;
-  ok_enc_len : forall k b, length b = p_bs P -> length (p_enc P k b) = p_bs P;
-  ok_dec_enc : forall k b, length b = p_bs P -> p_dec P k (p_enc P k b) = b;
-  ok_mac_len : forall k m, length (p_mac P k m) = p_macSize P;
-  ok_mac_bytes : forall k m, bytes_ok (p_mac P k m);
-  ok_open_seal : forall k n ad p, p_open P k n ad (p_seal P k n ad p) = Some p;
-  ok_seal_len : forall k n ad p, length (p_seal P k n ad p) = length p + p_overhead P }.
-
-Tactic Notation "pose_ok" constr(lem) constr(P) constr(H) "as" ident(n) :=
-  pose proof (lem P (ok_bs P H) (ok_enc_len P H) (ok_dec_enc P H) (ok_mac_len P H) (ok_mac_bytes P H)
-                    (ok_open_seal P H) (ok_seal_len P H)) as n.
+Tactic Notation "pose_ok" constr(lem) constr(P) constr(H) "as" ident(n) := pose proof (lem P H) as n.
 
 Lemma len_bytes_u16 n : len_bytes n = u16 n.
 Proof. reflexivity. Qed.
 
 Lemma decrypt_encrypt_record_ok P (H : prims_ok P) w r s h3 eiv frag :
   same_keys w r -> hc_seq w = be64 s -> (s < 2 ^ 64 - 1)%N -> hc_version r = VersionGMSSL ->
-  length h3 = 3 -> length eiv = explicit_len P (hc_cipher w) -> bytes_ok frag ->
+  length h3 = 3 -> length eiv = explicit_len P (hc_cipher w) -> bytes_ok eiv -> bytes_ok frag ->
   (N.of_nat (length frag) + N.of_nat (p_macSize P) < 2 ^ 30)%N ->
   exists w' rec_ r',
     encrypt P w (h3 ++ len_bytes (length frag) ++ eiv ++ frag) (length eiv) = Ok (w', rec_) /\
@@ -646,14 +673,17 @@ Definition toy_tag (n : nat) (x : list N) : list N :=
 
 Definition toy_prims : prims :=
   mkPrims 16
-    (fun k b => xor_bytes b (firstn 16 (k ++ repeat 90%N 16)))
-    (fun k b => xor_bytes b (firstn 16 (k ++ repeat 90%N 16)))
+    (fun k b => xor_bytes b (firstn 16 (map (fun x => (x mod 256)%N) k ++ repeat 90%N 16)))
+    (fun k b => xor_bytes b (firstn 16 (map (fun x => (x mod 256)%N) k ++ repeat 90%N 16)))
     32 (fun k m => toy_tag 32 (k ++ m))
     16 (fun k n ad p => p ++ toy_tag 16 (k ++ n ++ ad ++ p))
     (fun k n ad c =>
        if length c <? 16 then None
        else let p := firstn (length c - 16) c in
             if bytes_eqb (skipn (length c - 16) c) (toy_tag 16 (k ++ n ++ ad ++ p)) then Some p else None).
+
+Lemma In_firstn' {A} n (l : list A) x : In x (firstn n l) -> In x l.
+Proof. intros H. rewrite <- (firstn_skipn n l). apply in_or_app. left. exact H. Qed.
 
 Lemma toy_tag_length n x : length (toy_tag n x) = n.
 Proof. unfold toy_tag. rewrite map_length, seq_length. reflexivity. Qed.
@@ -663,7 +693,12 @@ Proof.
   constructor; cbn [toy_prims p_bs p_enc p_dec p_macSize p_mac p_overhead p_seal p_open].
   - lia.
   - intros k b Hb. rewrite xor_bytes_length, firstn_length, app_length, repeat_length. lia.
-  - intros k b Hb. apply xor_bytes_involutive. rewrite firstn_length, app_length, repeat_length. lia.
+  - intros k b Hb Hbb. apply xor_bytes_ok; [exact Hbb|].
+    unfold bytes_ok. apply Forall_forall. intros x Hx. apply In_firstn' in Hx.
+    apply in_app_or in Hx. destruct Hx as [Hy|Hy].
+    + apply in_map_iff in Hy. destruct Hy as [z [<- _]]. apply N.mod_lt. discriminate.
+    + apply repeat_spec in Hy. subst. reflexivity.
+  - intros k b Hb _. apply xor_bytes_involutive. rewrite firstn_length, app_length, repeat_length. lia.
   - intros k m. apply toy_tag_length.
   - intros k m. unfold bytes_ok, toy_tag. apply Forall_forall. intros x Hx.
     apply in_map_iff in Hx. destruct Hx as [y [<- _]]. apply N.mod_lt. discriminate.
